@@ -148,6 +148,11 @@ func checkC06(w *SketchWorld, slot int) (fails []mc.Fail) {
 					fail("C06.round-trip", "the decoded mapping is not equal to the producer's (omitMapping=%v)", omit)
 					return
 				}
+				// ... and bit for bit the same parameters (judged without Equals)
+				if !proto.Equal(dec.Mapping().ToProto(), sl.Mapping().ToProto()) {
+					fail("C06.round-trip", "the decoded mapping %v differs from the producer's %v (omitMapping=%v)", dec.Mapping().ToProto(), sl.Mapping().ToProto(), omit)
+					return
+				}
 				mc.Count("decodes", 1)
 				if t.K == sl.Store.K && t.N == 0 {
 					// same answers to every query (same store kind, unbounded)
